@@ -308,6 +308,10 @@ def leaf_lattice():
     ctors["ones_like"] = lambda dt: sg.ones_like(sg.Tensor(np.zeros(3)), requires_grad=True, dtype=dt)
     ctors["zeros_like"] = lambda dt: sg.zeros_like(sg.Tensor(np.zeros(3)), requires_grad=True, dtype=dt)
     ctors["normal"] = lambda dt: sg.normal(0.0, 1.0, 3, requires_grad=True, dtype=dt)
+    # wrapping an EXISTING tensor (of the dtype under test) with the flag switched on
+    _src = lambda dt: sg.Tensor(np.array([1, 0, 2]).astype(dt if dt is not None else np.int64))
+    ctors["Tensor(tensor)"] = lambda dt: sg.Tensor(_src(dt), requires_grad=True)
+    ctors["Parameter(tensor)"] = lambda dt: sg.nn.Parameter(_src(dt), requires_grad=True)
     viols = []; n = 0
     for cname, mk in ctors.items():
         for dt in (None, f32, f64, i32, i64, np.complex64, np.complex128, np.bool_, np.uint8, np.float16):
